@@ -204,7 +204,8 @@ def _extract_class(c: ast.ClassDef, nx: Norm, modname: str) -> dict:
             is_cv = _is_classvar(ann)
             name = st.target.id
             if is_cv:
-                cls["classvars"][name] = {"ann": ann, "value": nx(st.value), "line": st.lineno}
+                cls["classvars"][name] = {"ann": ann, "value": nx(st.value), "line": st.lineno,
+                                         "src": ast.unparse(st.value) if st.value is not None else None}
                 cls["classvar_order"].append(name)
                 continue
             cls["fields"].append(_extract_field(st, nx, ann))
